@@ -210,7 +210,7 @@ def run(model, rep, tier):
     rep.check(len(gqf) == 1 and kwq.get("create") == "True" and kwq.get("force_unique") == "True", "R-03.4", gq.qualname, where(gq, gq.node),
               "every question read from the wire becomes its own entry (find_rrset(create=True, force_unique=True))",
               f"questions are stored with {kwq}: a repeated question is folded into the first one, so the parsed message has fewer questions than QDCOUNT and re-renders to different octets", stmt="question-unique")
-    rep.share(model, "C01", {"R-01.4"}, "R-03.7", "every compressed name in a rendered message is a pointer produced by Name.to_wire from the table offsets")
+    rep.share(model, "C01", {"R-01.3", "R-01.4"}, "R-03.7", "every compressed name in a rendered message is a pointer produced by Name.to_wire from the table offsets")
     rep.share(model, "C08", {"R-08.6"}, "R-03.8", "re-rendering a parsed message must not hit a limit the original did not have: the default limit comes from request_payload (0 on a parsed message), not from the message's own OPT")
     rep.share(model, "C02", {"R-02.7"}, "R-03.9", "the OPT record's options and every rdata of a message are decoded by the per-type from_wire_parser methods")
     rep.meta["explanation"] = (
